@@ -382,6 +382,31 @@ def family(k, rng):
     out.append(("slice-row0", ufl.inner(A[0, :], w) * vt * ufl.dx(domain=c.m), "slots"))
     out.append(("ct-col0", ufl.as_vector(A[ii, 0], ii)[1] * vt * ufl.dx(domain=c.m), "slots"))
     out.append(("ct-row0", ufl.as_vector(A[0, ii], ii)[1] * vt * ufl.dx(domain=c.m), "slots"))
+    # several integrals that reuse the same Index objects (the index numbering is shared by the whole form)
+    pv, qv, w2 = ufl.Coefficient(Vv), ufl.Coefficient(Vv), ufl.Coefficient(Vv)
+    for na, (x, y) in (("ij", (ii, jj)), ("ji", (jj, ii))):
+        for nb, (r, t) in (("ij", (ii, jj)), ("ji", (jj, ii)), ("ii", (ii, ii))):
+            fm = A[ii, jj] * (w[x] * w2[y]) * vt * ufl.dx(1, domain=c.m) + pv[r] * pv[r] * vt * ufl.dx(2, domain=c.m) + \
+                qv[t] * qv[t] * vt * ufl.dx(3, domain=c.m)
+            out.append((f"multi-integral-{na}-{nb}", fm, "multi"))
+    # variables: distinct labels on equal expressions, unexpanded diff
+    v1, v2, v3 = ufl.variable(f * g), ufl.variable(f * g), ufl.variable(f + g)
+    for nm, e in (("d-v1", ufl.diff(v1 ** 2 * v2, v1)), ("d-v2", ufl.diff(v1 ** 2 * v2, v2)),
+                  ("d-v1-sym", ufl.diff(v2 ** 2 * v1, v2)), ("v1v2", v1 * v2 + v1), ("v1v2b", v1 * v2 + v2),
+                  ("v1v1", v1 * v1 + v1), ("d-v3", ufl.diff(v1 * v3, v3)), ("d-v3b", ufl.diff(v1 * v3, v1))):
+        out.append(("variables-" + nm, e * vt * ufl.dx(domain=c.m), "labels"))
+    # the same form on meshes that differ only in the coordinate element (gdim, degree, family)
+    from ufl.sobolevspace import L2
+    coord = {"P1-flat": elements.LagrangeElement(c.cell, 1, (2,)), "P1-flat-again": elements.LagrangeElement(c.cell, 1, (2,)),
+             "P1-manifold-gdim3": elements.LagrangeElement(c.cell, 1, (3,)), "P2-flat": elements.LagrangeElement(c.cell, 2, (2,)),
+             "P2-manifold-gdim3": elements.LagrangeElement(c.cell, 2, (3,)),
+             "DG1-flat": elements.FiniteElement("Discontinuous Lagrange", c.cell, 1, (2,), elements.identity_pullback, L2)}
+    for nm, ce in coord.items():
+        mx = ufl.Mesh(ce)
+        Vx = ufl.FunctionSpace(mx, elements.LagrangeElement(c.cell, 1, ()))
+        fx_ = ufl.Coefficient(Vx, count=f.count())
+        fm = (ufl.TrialFunction(Vx) * ufl.TestFunction(Vx) + fx_ * ufl.CellVolume(mx) * ufl.TestFunction(Vx)) * ufl.dx(domain=mx)
+        out.append(("domain-" + nm, fm, "domains"))
     out.append(("subdomain-id", build(sid=3 if sid0 != 3 else 4), "diff"))
     out.append(("subdomain-tuple", build(sid=(1, 3)), "diff"))
     out.append(("integral-type", build(itype="ds"), "diff"))
